@@ -13,8 +13,8 @@ E = "bounded stand-in: real code vs oracle written from the statement, enumerate
 
 CLAIMS = {
     "C01": ("proof", "5 C01", "Plane / axis selection of every cube-measure class and factory (exhaustive over dimension-type pairs), valid-element indexing of Cube arrays incl. the numeric-array permutation, NaN for unavailable values and the public wiring are postconditions proved for all sizes; the composition through the public API is additionally checked against a respondent-level tabulation (bounded).", P + "; " + E),
-    "C02": ("proof", "5 C02", "Every per-cell base, margin, table base, range-feeding base and the min-base mask ('<') is a proved postcondition (9 cube-count classes x all pairings, 6 base-block classes, mask class); end-to-end bounded check against respondents.", P + "; " + E),
-    "C03": ("proof", "5 C03", "Proportion blocks == count/base per block, NaN-iff-zero-base, [0,1] range, sums-to-one and 100x percentages proved for all sizes and subtotal lists.", P),
+    "C02": ("proof", "5 C02", "Every per-cell base, 1-D margin, table base, [min, max] range and min-base mask ('<') is a proved postcondition, for slices (9 cube-count classes x all pairings, 6 base-block classes, 4 marginal classes, table values, margin fallbacks, mask class) and strands (3 count classes, base measures, ranges, mask); end-to-end bounded checks against respondents (slices and strands).", P + "; " + E),
+    "C03": ("proof", "5 C03", "Proportion blocks == count/base per block, NaN-iff-zero-base, [0,1] range, sums-to-one and 100x percentages proved for all sizes and subtotal lists, for slices and strands; 1-D margin proportions proved; the 2-D margin-proportion form is a bounded stand-in and carries the open known finding F17.", P + "; bounded stand-in for the 2-D margin proportion; " + E),
     "C04": ("proof", "5 C04", "Signed-merge formulas of every block of every measure, order-independent intersections (Fubini), NaN rules and the categorical-date wave-difference rule proved; merge-equivalence with merged data checked end-to-end (bounded).", P + "; " + E),
     "C05": ("proof", "5 C05", "Assembly = block matrix re-indexed by the two display orders (proved, unbounded); every public output uses those same two orders (wiring, proved); values never read display transforms (frame clause of every measure contract); position-valued outputs and duplicate-freedom bounded.", P + "; " + E),
     "C06": ("proof", "5 C06", "Slice-index expression and all cube-measure factories proved to select the table of the k-th valid element (incl. the with-missings tensor); partition == restricted 2-D analysis checked end-to-end (bounded).", P + "; " + E),
@@ -28,7 +28,7 @@ CLAIMS = {
     "C14": ("proof", "5 C14", "Scale mean proved equal to the respondent-level mean for all sizes; std-error proved; std-dev and median bounded (concrete sizes, symbolic contents); all statistics checked against respondent-level data end-to-end (bounded).", P + "; bounded stand-ins for std-dev / median; " + E),
     "C15": ("proof", "5 C15", "Every share-of-sum block proved to divide by the base-cell total of its row / column / table.", P),
     "C16": ("proof", "5 C16", "Baselines of the four unconditional-count classes, the index formula and the 3-D factory proved; end-to-end bounded check.", P + "; " + E),
-    "C17": ("proof", "5 C17", "Fraction cascade proved path-complete over every shape of the filter statistics with symbolic numbers (Python division semantics); proportion / std-error selection exhaustive over type pairs; scaling wiring.", P),
+    "C17": ("proof", "5 C17", "Fraction cascade proved path-complete over every shape of the filter statistics with symbolic numbers (Python division semantics); proportion / std-error selection proved exhaustively over type pairs (slices) and dimension types (strands); population counts / margin of error incl. NaN at differences bounded (concrete sizes, symbolic contents) for slices and strands, strands also end-to-end.", P + "; bounded stand-ins for population_counts; " + E),
     "C18": ("other", "5 C18", "modifies-nothing frame pass over every function of the package (syntactic obligations, declared mutators listed) + lazyproperty contract proved; histories (read schedules, re-used argument objects, response forms) enumerated on fixture responses (tier E).", "AST frame pass + " + E),
     "C19": ("exploration", "5 C19", "Real Dimension / _ElementIdShim enumerated over every spelling x transform slot x stale reference within a stated bound, against the statement.", E),
     "C20": ("proof", "5 C20", "Trailing moving average with NaN prefix and all guards proved unbounded in series length and window (A-NP convolve contract); smoothed measures = smoother applied to the unsmoothed blocks; smoothed scale mean = scale mean of smoothed proportions.", P),
